@@ -103,12 +103,13 @@ def run_case(case, ctx):
             r = o[ci]
             err = r["base"].get("__error__")
             # (b) listing order, (c) presence of other streams, (g) prior use of the stream
-            for variant in ("perm", "hist"):
+            for variant in ("perm", "hist", "reuse"):
                 ctx.count("in_process_metamorphic_comparisons")
                 if err is None and r[variant].get("__error__") is None:
                     for n in names:
                         if r[variant][n] != r["base"][n]:
-                            ctx.viol(f"depends-on-{'listing-order' if variant == 'perm' else 'prior-stream-use'}",
+                            ctx.viol("depends-on-" + {"perm": "listing-order", "hist": "prior-stream-use",
+                                                      "reuse": "what-the-updater-served-before"}[variant],
                                      {**info, "stream": n, "base": r["base"][n], variant: r[variant][n], "hashseed": h})
                             return
             if err is None:
